@@ -273,6 +273,12 @@ pub fn gen(tier: &str, seed: u64, out: &mut dyn FnMut(Value)) {
         "a: b\n", "a: b\na: c\n", "---\na: b\n---\na: c\n", "- a\n- b\n", "a: [1, 2]\n", "a: {b: c}\n", "5: 6\n", "a: null\n", "~: x\n", "", "---\n---\n",
         "'{{a}}': '{{a}}'\n", "a: '{{a}}'\n", "a: \"\\u0000\"\n", ": x\n", "a: !!binary AAAA\n", "&x a: *x\n",
     ];
+    for t in ["a: '{{b}}'\nb: '{{a}}'\n", "exe: '{{dir}}ls$'\ndir: '^/bin/{{exe}}'\n", "a: '{{a}}'\n", "a: '{{b}}'\nb: '{{c}}'\nc: '{{a}}x'\n", "a: 'x{{a}}x{{a}}'\n"] {
+        for m in [".x == '{{a}}'", ".x ~= '{{exe}}'", ".x == '{{a}}{{b}}'", "rule({{a}})"] {
+            let r = format!("---\nname: r\nmatches:\n  $a: {}\ncondition: $a\n", crate::doc::yq(m));
+            out(json!({"op": "load_text", "templates": t, "rules": r, "tag": "templates referring to each other", "nt": true}));
+        }
+    }
     for t in tdocs {
         out(json!({"op": "load_text", "templates": t, "rules": "---\nname: r\nmatches:\n  $a: .x == '{{a}}'\n", "tag": "template document", "nt": true}));
     }
